@@ -14,6 +14,18 @@ BASELINE_OFF = (
 
 # id -> (category, technique, text, note, design_ref)
 CHECKS = {
+    "C14": (
+        "exploration",
+        "bounded-exhaustive enumeration of primitive calls in compiled drivers (ASan/UBSan) vs bit-at-a-time reference",
+        "A driver compiled against the support header generated from the working tree (C any/little/big x asserts, C++ "
+        "bitspan for c++14/17, ASan+UBSan, exactly-sized heap buffers) enumerates every (offset, length, buffer size, "
+        "pattern, value) within the stated bounds for copy/get/set primitives and compares with a naive bit loop; float16 "
+        "packing is checked on all 2^32 singles (faithful, monotone, inf/NaN) and all 2^16 halves; the Python "
+        "Serializer/Deserializer run in-process against the same reference.",
+        "x86-64 little-endian host, gcc 12; bounds offsets 0..23, lengths 0..80, sizes 0..12; big-endian option only "
+        "checked for equivalence on this host.",
+        "DESIGN.md section 3, C14",
+    ),
     "C15": (
         "model_checking",
         "exhaustive enumeration of chunk schedules on the real line buffer vs. line-by-line reference model",
